@@ -11,7 +11,10 @@ ITEMS = {
     3: {"id": "t3", "type": "set_state", "key": "index", "val": "win", "rule_conditions": [{"type": "logsource", "product": "windows"}]},
     4: {"id": "t4", "type": "field_name_prefix", "prefix": "p_", "rule_conditions": [{"type": "processing_state", "key": "index", "val": "win"}]},
     5: {"id": "t5", "type": "field_name_suffix", "suffix": "_s"},
+    6: {"id": "t6", "type": "value_placeholders"},
 }
+# converted in addition where the reference definition fills placeholders AND defines variable k1
+PROBE_PH = {"title": "ph", "logsource": {"category": "c", "product": "linux"}, "detection": {"sel": {"fieldP|expand": "x%k1%y"}, "condition": "sel"}}
 POST = {
     1: {"type": "embed", "prefix": "[", "suffix": "]"},
     2: {"type": "embed", "prefix": "<", "suffix": ">"},
@@ -54,7 +57,11 @@ def backend_with(cls_pipe=None, fmt_pipe=None, fmt_name="test"):
     return type("ComposeBackend", (TextQueryTestBackend,), attrs)
 
 
-def _convert(backend, fmt="default", via_rule=False):
+def _probes(refdef):
+    return PROBES + ([PROBE_PH] if 6 in refdef["items"] and any(k == 1 for k, _ in refdef["vars"]) else [])
+
+
+def _convert(backend, fmt="default", via_rule=False, probes=PROBES):
     from sigma.collection import SigmaCollection
     from sigma.rule import SigmaRule
     from sigma.exceptions import SigmaError
@@ -63,7 +70,7 @@ def _convert(backend, fmt="default", via_rule=False):
     r = {"ok": False, "out": [], "exc": "", "sigma": False}
     try:
         outs = []
-        for p in PROBES:
+        for p in probes:
             if via_rule:
                 o = backend.convert_rule(SigmaRule.from_dict(copy.deepcopy(p)), fmt)
             else:
@@ -143,6 +150,11 @@ def drive_case(case):
             composed = pipes[0] + pipes[1]
             _other = pipes[1] + pipes[2]
             b = Plain(composed)
+        elif op == "reuse_after_use":  # a + b is built and USED, then a goes into a + c
+            first = pipes[0] + pipes[1]
+            _convert(Plain(first), probes=PROBES + [PROBE_PH])
+            composed = pipes[0] + pipes[2]
+            b = Plain(composed)
         elif op == "reuse_operand":
             _sum = pipes[0] + pipes[1]
             composed = pipes[0]
@@ -183,16 +195,17 @@ def drive_case(case):
     via_rule = op == "backend_switch"
     # the composed object used directly, before a backend sums its parts once more
     state_after = _apply_state(composed) if composed is not None else []
-    got = compose_error or _convert(b, fmt, via_rule)
+    probes = _probes(case["ref"])
+    got = compose_error or _convert(b, fmt, via_rule, probes)
     vars_ = sorted((int(k[1:]), v) for k, v in (composed.vars.items() if composed is not None else []) if k.startswith("k") and k[1:].isdigit())
     last = getattr(b, "last_processing_pipeline", None)
     applied = list(last.applied) if last is not None else []
     # reference: ONE pipeline with the definition the spec demands, on fresh objects
     refdef = dict(case["ref"], name=99)
     rb = Plain(mkpipe(refdef))
-    ref = _convert(rb, fmt, via_rule)
+    ref = _convert(rb, fmt, via_rule, probes)
     ref_applied = list(rb.last_processing_pipeline.applied) if getattr(rb, "last_processing_pipeline", None) is not None else []
-    raw = _convert(Plain(mkpipe(refdef, with_stages=False)), fmt, via_rule)
+    raw = _convert(Plain(mkpipe(refdef, with_stages=False)), fmt, via_rule, probes)
     ref_state = _apply_state(mkpipe(refdef)) if composed is not None else []
     return {
         "id": case["id"],
